@@ -707,3 +707,154 @@ ot = handler('genObjectType', Lst(Str, Tup(Any, Any), Any, Any, Any, Any, Any, A
                        'implies(truthy(data[8]), is_tuple(data[8]) and len(data[8]) == 3)',
                        'implies(truthy(data[7]), is_str(data[7]))'])
 CONTRACTS.append(ot)
+
+
+# =====================================================================================================
+# genCode: per-module driver (C03 every registered symbol is emitted, C12 nothing of an earlier module is read,
+# C15 text options are those of this call, C18 the summary objects are this module's own)
+# =====================================================================================================
+PER_MODULE = ['self._out', 'self._seenSyms', 'self._oids', 'self._enterpriseOid', 'self._moduleIdentityOid',
+              'self._complianceOids', 'self._moduleRevision', 'self._rows', 'self._cols', 'self._importMap']
+from pyvc.apply import havoc_location as _havoc_location
+
+
+def _same(it, a, b):
+    """engine-level equality of two values as a z3 formula / bool (identity for callables and objects)"""
+    if isinstance(a, (pv.VBuiltin, pv.VFunc, pv.VObj, pv.VClass)) or isinstance(b, (pv.VBuiltin, pv.VFunc, pv.VObj, pv.VClass)):
+        return a is b
+    return lift(a) == lift(b)
+
+
+def _handler_model(it, args, kwargs):
+    """a clause handler as genCode sees it (the handlers have their own contracts): it runs in the generator as
+    configured by this call, registers and summarises into the per-module state, or raises a package error"""
+    from pyvc.interp import PyRaise
+    ctx = it.ctx
+    g = ctx.ghost
+    selfv = args[0]
+    exp = g['gc_expected']
+    ctx.oblige('intermediate.genCode.dispatch.text_option_is_this_calls', _same(it, selfv.fields['genRules'].vals['text'], exp['text']),
+               None, 'call-pre', info={'clause': 'self.genRules["text"] == kwargs.get("genTexts", False) when a handler runs'})
+    ctx.oblige('intermediate.genCode.dispatch.text_filter_is_this_calls', exp['filter'](selfv.fields['textFilter']),
+               None, 'call-pre', info={'clause': 'self.textFilter is kwargs["textFilter"] if given else the '
+                                                 'whitespace-normalising default, when a handler runs'})
+    ctx.oblige('intermediate.genCode.dispatch.symbol_table_is_this_calls', selfv.fields['symbolTable'] is exp['symtab'],
+               None, 'call-pre', info={'clause': 'self.symbolTable is the symbolTable argument when a handler runs'})
+    ctx.oblige('intermediate.genCode.dispatch.module_name_is_this_modules',
+               _same(it, selfv.fields['moduleName'].items[0], exp['name']),
+               None, 'call-pre', info={'clause': 'self.moduleName[0] == ast[0] when a handler runs'})
+    g['gc_dispatches'] = g.get('gc_dispatches', 0) + 1
+    if ctx.choose(2, 'handler-outcome') == 1:
+        e = pv.VObj('PySmiError')
+        e.fields['args'] = (it.fresh_str('msg'),)
+        e.fields['msg'] = e.fields['args'][0]
+        raise PyRaise(e, None)
+    env = g['gc_env']
+    for p in PER_MODULE:
+        _havoc_location(it, env, p)
+    return None
+
+
+def _is_default_filter(it, f):
+    """the default text filter: `lambda symbol, text: re.sub(r'\\s+', ' ', text)` created by this call"""
+    import ast as _ast
+    if not isinstance(f, pv.VFunc) or not isinstance(f.node, _ast.Lambda):
+        return False
+    return _ast.unparse(f.node.body).replace('"', "'") == "re.sub('\\\\s+', ' ', text)" and \
+        [a.arg for a in f.node.args.args][1:] == ['text'] and len(f.node.args.args) == 2
+
+
+def _gencode_setup(variant):
+    def setup(it, env):
+        ctx = it.ctx
+        selfv = env.lookup('self')
+        ht = pv.VObj('HandlerTable')
+        from pyvc.interp import UNBOUND
+
+        def hook(it_, obj, attr):
+            if attr == '__getitem__':
+                return pv.VBuiltin('handlersTable.__getitem__',
+                                   lambda i, a, k: pv.VBuiltin('clause-handler', _handler_model))
+            return UNBOUND
+        ht.attr_hook = hook
+        selfv.fields['handlersTable'] = ht
+        kw = pv.VDict()
+        exp = {}
+        if variant == 'options':
+            tf = build(TextFilter(), it, 'userFilter')
+            gt = it.fresh_any('genTexts')
+            cm = it.fresh_any('comments')
+            for k, v in (('genTexts', gt), ('textFilter', tf), ('comments', cm)):
+                kw.keys.append(k)
+                kw.vals[k] = v
+            exp['text'] = gt
+            exp['filter'] = lambda f, tf=tf: f is tf
+        else:
+            exp['text'] = False
+            exp['filter'] = lambda f: _is_default_filter(it, f)
+        env.set('kwargs', kw)
+        exp['symtab'] = env.lookup('symbolTable')
+        exp['name'] = env.lookup('ast')[0]
+        ctx.ghost['gc_expected'] = exp
+        ctx.ghost['gc_env'] = env
+        ctx.ghost['gc_dispatches'] = 0
+        ctx.ghost['gc_entry'] = {k: selfv.fields[k] for k in ('_oids', '_complianceOids')}
+    return setup
+
+
+B.SPEC_FUNCS['ENTRY_OBJECT'] = lambda it, args, kwargs: args[0] is it.ctx.ghost['gc_entry'][args[1]]
+B.SPEC_FUNCS['TEXT_FILTER_OK'] = lambda it, args, kwargs: it.ctx.ghost['gc_expected']['filter'](args[0])
+
+RESET = ['forall(lambda s_k: s_k not in self._out)',
+         'forall(lambda s_k: s_k not in self._oids)', 'len(self._complianceOids) == 0',
+         'self._moduleIdentityOid is None', 'self._enterpriseOid is None', 'self._moduleRevision is None',
+         'forall(lambda s_k: s_k not in self._rows)', 'forall(lambda s_k: s_k not in self._cols)']
+ORDER = 'self.symbolTable[self.moduleName[0]]["_symtable_order"]'
+
+CONTRACTS += [
+    # summaries of the callees of genCode that are not (yet) under a contract of their own
+    Contract(id='intermediate.genImports', file=FILE, func='IntermediateCodeGen.genImports', serves=['C03'], trusted=True,
+             params={'self': SELF, 'imports': Any}, returns=Tup(MapOf(), TupOf(Str)),
+             assigns=['self._importMap', 'self._seenSyms'],
+             requires=['forall(lambda s_k: s_k not in self._seenSyms)', 'forall(lambda s_k: s_k not in self._importMap)'],
+             ensures={'an_imports_record_and_the_module_names': 'implies(not raised, is_dict(result[0]))'},
+             raises={'PySmiSemanticError': True},
+             notes=['assumed summary: genImports returns the imports record and the imported module names and touches '
+                    'only the import map and the seen-symbol set (its own contract serves C16)']),
+    Contract(id='intermediate.prepData', file=FILE, func='IntermediateCodeGen.prepData', serves=['C03'], trusted=True,
+             params={'self': SELF, 'pdata': Any}, returns=Any, pure=True,
+             ensures={'a_list': 'implies(not raised, is_list(result))'}, raises={'PySmiError': True},
+             notes=['assumed summary: prepData maps the clause arguments through the sub-handlers (each under its own '
+                    'contract) without touching the per-module state other than through them']),
+    Contract(id='intermediate.genCode', file=FILE, func='IntermediateCodeGen.genCode', serves=['C03', 'C12', 'C15', 'C18'],
+             params={'self': SELF, 'ast': Tup(Str, Any, Any, Opt(SeqOf())), 'symbolTable': MapOf(), 'kwargs': NoneT},
+             cases=[('defaults', {'setup': _gencode_setup('defaults')}), ('options', {'setup': _gencode_setup('options')})],
+             requires=['is_dict(symbolTable[ast[0]])', 'is_list(symbolTable[ast[0]]["_symtable_order"])',
+                       # value type of `declarations` (grammar contracts): None or a tagged tuple
+                       'implies(ast[3] is not None, forall(ast[3], lambda d: not truthy(d) or (is_tuple(d) and len(d) >= 1 and is_str(d[0]))))',
+                       'forall(seq(symbolTable[ast[0]]["_symtable_order"]), lambda s: is_str(s))'],
+             loops={
+                 1: {'assigns': PER_MODULE,
+                     'invariant': ['implies(_i == 0, %s)' % r for r in RESET] + [
+                         'implies(_i == 0, not ENTRY_OBJECT(self._oids, "_oids") and not ENTRY_OBJECT(self._complianceOids, "_complianceOids"))',
+                         'self.symbolTable is symbolTable', 'self.moduleName[0] == ast[0]', 'is_dict(outDict)']},
+                 2: {'invariant': ['is_dict(outDict)',
+                                   'forall(seq(%s), lambda j, s: implies(j < _i, s in self._out and same(outDict[s], self._out[s])))' % ORDER]},
+             },
+             ensures={
+                 'every_registered_symbol_is_emitted':
+                     'implies(not raised, forall(seq(%s), lambda j, s: implies(s != "meta", same(result[1][s], self._out[s]))))' % ORDER,
+                 'a_registered_symbol_without_code_is_an_error':
+                     'implies(exists(seq(%s), lambda j, s: s not in self._out), raised)' % ORDER,
+                 'meta_names_the_module': 'implies(not raised, result[1]["meta"]["module"] == ast[0])',
+                 'summary_is_this_modules': 'implies(not raised, result[0].name == ast[0] and same(result[0].oid, ast[1]) '
+                                            'and same(result[0].revision, self._moduleRevision) '
+                                            'and same(result[0].identity, self._moduleIdentityOid) '
+                                            'and same(result[0].enterprise, self._enterpriseOid))',
+                 'summary_collections_are_not_shared_with_the_previous_module':
+                     'implies(not raised, not ENTRY_OBJECT(result[0].oids, "_oids") and '
+                     'not ENTRY_OBJECT(result[0].compliance, "_complianceOids"))',
+                 'text_options_are_this_calls': 'implies(not raised, TEXT_FILTER_OK(self.textFilter))',
+             },
+             raises={'PySmiCodegenError': True, 'PySmiError': True, 'PySmiSemanticError': True}),
+]
